@@ -35,6 +35,13 @@ def shards(tier, seed):
         out += [{"name": f"dur-factory:{i}", "part": "dur_factory"}, {"name": f"dur-ops:{i}", "part": "dur_ops"},
                 {"name": f"dur-muldiv:{i}", "part": "dur_muldiv"}, {"name": f"instant:{i}", "part": "instant"},
                 {"name": f"offset:{i}", "part": "offset"}]
+    # auxiliary workload: the repository's own tests with the operator contracts switched on (their arithmetic is judged, not their assertions)
+    if tier == "quick":
+        out.append({"name": "repo-tests:elapsed", "part": "repo_tests", "paths": ["tests/test_duration.py", "tests/test_instant.py", "tests/test_offset.py", "tests/test_interval.py"]})
+    else:
+        out += [{"name": f"repo-tests:{p}", "part": "repo_tests", "paths": [p]} for p in
+                ("tests/test_duration.py", "tests/test_instant.py", "tests/test_offset.py", "tests/test_interval.py", "tests/test_offset_date_time.py", "tests/test_local_date_time.py",
+                 "tests/test_period.py", "tests/time_zones", "tests/text", "tests/calendars", "tests/testing" if False else "tests/test_zoned_clock.py")]
     return out
 
 
@@ -442,6 +449,12 @@ PARTS = {"dur_factory": run_dur_factory, "dur_ops": run_dur_ops, "dur_muldiv": r
 def run(ctx, shard):
     install_contracts(ctx)
     mon = Mon(ctx)
+    if shard["part"] == "repo_tests":
+        from vf.repo_tests import run_repo_tests
+        before = ctx.counters.get("contract_evals", 0)
+        run_repo_tests(ctx, shard["paths"])
+        ctx.distinct(ctx.counters.get("contract_evals", 0) - before)
+        return
     PARTS[shard["part"]](ctx, mon)
     # contract evaluations happen in every shard that performs arithmetic; factory/muldiv shards may have none
     ctx.counters.setdefault("contract_evals", 0)
